@@ -1,5 +1,6 @@
 /-
-Driver for C03 on workflows WITH LIMITED INTERNAL QUEUES (id C03Q): `Sched3Q` correspondence + judge.
+Driver for C03 on workflows WITH LIMITED INTERNAL QUEUES (id C03Q): `Sched3QR` correspondence + judge
+(`Sched3QR` = `Sched3QT` - limited queues, manual triggers - with retry delays that are not over at once).
 
 The judge reads the REAL scheduler's trace and decides the property text on it:
  (a) when the scheduler stopped by itself (reason AUTOMATIC), the pool at that moment has no
@@ -17,12 +18,15 @@ The judge reads the REAL scheduler's trace and decides the property text on it:
      queue table of the graph (`graph.queues`: name, limit, members, read off the real IndepQueueManager) - never
      from the model and never from the implementation's `count_active_tasks`.  A finished (failed / submit-failed /
      succeeded / expired) or waiting member does not occupy a slot.
+A task whose retry delay is not over yet (`rwait`, read off the real retry xtriggers and the clock of the run) is
+not ready in the sense of (c) - but it can run without intervention, so (b) counts it as able to run: a stall
+reported while a task only waits for its retry timer is a false stall.
 Prerequisite satisfaction and completion are evaluated by the judge from the expressions of the instance graph
 over the atoms / outputs the real proxies report - not by the model's transition functions.  The stop point is
 the one the real task pool reports (`stop_point`), so `cylc stop <point>` is followed.
 -/
-import CylcModel.Sched3QJson
-open Lean CylcModel.Drv CylcModel.Sched3Q
+import CylcModel.Sched3QRJson
+open Lean CylcModel.Drv CylcModel.Sched3QT CylcModel.Sched3QR
 
 namespace CylcModel.DrvC03Q
 
@@ -148,7 +152,8 @@ def judgeShutdown (g : Graph) (stop : Int) (idx : Nat) (pool : List PX) : Option
       | _, _ => some (mismatch x)
 
 /-- (b) -/
-def judgeStall (g : Graph) (stop : Int) (idx : Nat) (pool : List PX) (rl : Option Int) : Option String :=
+def judgeStall (g : Graph) (stop : Int) (idx : Nat) (pool : List PX) (rl : Option Int) (rwait : List (Int × String)) :
+    Option String :=
   let ready (x : PX) : Option Bool := (allSat g x).map fun sat => x.st == "waiting" && !x.held && sat
   let active := firstSome pool fun x =>
     if isActiveStr x.st then some s!"obs {idx}: stall reported while {x.p}/{x.n} is {x.st}" else none
@@ -157,7 +162,9 @@ def judgeStall (g : Graph) (stop : Int) (idx : Nat) (pool : List PX) (rl : Optio
     | none => some (mismatch x)
     | some r =>
       if r && !x.rh then
-        if (queuesOf g x.n).all fun q => hasFreeSlot q pool then
+        if rwait.contains (x.p, x.n) then
+          some s!"obs {idx}: stall reported while {x.p}/{x.n} only waits for its retry delay (it runs again without intervention once the delay is over)"
+        else if (queuesOf g x.n).all fun q => hasFreeSlot q pool then
           some s!"obs {idx}: stall reported while the ready task {x.p}/{x.n} is queued and its queue has a free slot ({describeQueues g x.n pool})"
         else some s!"obs {idx}: stall reported while the released waiting task {x.p}/{x.n} is ready"
       else none
@@ -179,6 +186,13 @@ def judgeStall (g : Graph) (stop : Int) (idx : Nat) (pool : List PX) (rl : Optio
 
 def isSet (ob : Json) (k : String) : Bool := (jOptField ob k).isSome
 
+/-- a list of `[point, name]` pairs under key `k` (absent = empty) -/
+def keysField (ob : Json) (k : String) : List (Int × String) :=
+  ((jArrField? ob k).getD []).filterMap fun a =>
+    match jArr? a with
+    | some (p :: n :: _) => do return (← jInt? p, ← jStr? n)
+    | _ => none
+
 /-- (c) -/
 def judgeResponse (g : Graph) (idx : Nat) (before after : Json) : Option String :=
   -- stopping (any stop mode requested or reached) or paused: the release step does not run
@@ -190,8 +204,10 @@ def judgeResponse (g : Graph) (idx : Nat) (before after : Json) : Option String 
     | some [p, n, sn] => match jInt? p, jStr? n, jNat? sn with | some p, some n, some sn => some (p, n, sn) | _, _, _ => none
     | _ => none
   let pool := poolPX before
+  -- tasks whose retry delay was not over when the loop started: their (retry) xtrigger is not satisfied
+  let rwait := keysField before "rwait"
   firstSome pool fun x =>
-    if x.st != "waiting" || x.held then none else
+    if x.st != "waiting" || x.held || rwait.contains (x.p, x.n) then none else
     match allSat g x with
     | none => some (mismatch x)
     | some sat =>
@@ -232,6 +248,7 @@ def judge (g : Graph) (ops : List Json) (obs : List Json) : Option String :=
         if jBoolField? ob "stalled" == some true && jBoolField? prev "stalled" != some true then
           match jOptField ob "stall_at" with
           | some sa => judgeStall g (stopOf ob) i (((jArrField? sa "pool").getD []).map parsePX) (jIntField? sa "rl")
+              (keysField sa "rwait")
           | none => some s!"obs {i}: the stall flag went up although TaskPool.is_stalled did not hold during the operation"
         else none
       let r3 : Option String := if kind == "loop" then judgeResponse g i prev ob else none
@@ -247,11 +264,11 @@ def judge (g : Graph) (ops : List Json) (obs : List Json) : Option String :=
 
 def handle (i o : Json) : Except String Reply := do
   if let some r := crashReply? i then return r
-  let c ← parseCase i
+  let c ← parseCaseR i
   let ops := (jArrField? i "ops").getD []
-  match judge c.graph ops (obsList o) with
-  | some w => return { model := modelObs c, holds := false, why := w }
-  | none => return { model := modelObs c, holds := true }
+  match judge c.graph.g ops (obsList o) with
+  | some w => return { model := modelObsR c, holds := false, why := w }
+  | none => return { model := modelObsR c, holds := true }
 
 end CylcModel.DrvC03Q
 
